@@ -40,6 +40,7 @@ fn all_distractors(n_terms: usize) -> Vec<Distractor> {
         Distractor::TagsBeforeName,
         Distractor::GeneHeaderLong(20_000),
         Distractor::HpoaCommentLong(20_000),
+        Distractor::IsATrailingModifier,
     ]
 }
 
@@ -90,7 +91,16 @@ pub fn run(ctx: &mut Ctx) {
         "release years have four digits".into(),
     ];
     let family: Vec<(Facts, String)> = format_family(if thorough { 4 } else { 4 }, if thorough { 1 } else { 6 }).into_iter().map(|(f, w)| (textual(&f), w)).collect();
-    ctx.space("family/orders-and-single-distractors", &format!("{} fact sets x (all stanza orders + gene-row orders + disease-row orders + is_a lines reversed + 28 single distractors) x from_standard, a subset also through from_standard_transitive; differential against Builder and binary", family.len()));
+    // term names around and beyond the 255-byte limit of the BINARY format - the text format has no such limit
+    let mut family = family;
+    if let Some((base, _)) = family.iter().find(|(f, _)| f.terms.len() == 3 && f.anns.iter().any(|a| a.kind == Kind::Gene) && f.terms.iter().all(|t| !t.obsolete && t.replacement.is_none())).cloned() {
+        for (len, unit) in [(255usize, "a"), (256, "a"), (300, "a"), (1000, "a"), (128, "\u{e9}"), (150, "\u{e9}"), (86, "\u{20ac}")] {
+            let mut f = base.clone();
+            f.terms[2].name = unit.repeat(len);
+            family.push((f, format!("a term name of {len} x {unit:?} ({} bytes)", len * unit.len())));
+        }
+    }
+    ctx.space("family/orders-and-single-distractors", &format!("{} fact sets x (all stanza orders + gene-row orders + disease-row orders + is_a lines reversed + 29 single distractors) x from_standard, a subset also through from_standard_transitive; differential against Builder and binary", family.len()));
     for (f, what) in &family {
         if !ctx.take() {
             continue;
@@ -171,7 +181,7 @@ pub fn run(ctx: &mut Ctx) {
             let mut o = JaxOpts::default();
             o.distractors = vec![d.clone()];
             with_opts(ctx, f, &o, false, &format!("distractor {d:?}"));
-            if matches!(d, Distractor::GeneHeader(_) | Distractor::GeneTrailingColumns | Distractor::GeneMinimalColumns | Distractor::Typedef(_) | Distractor::ExtraTags | Distractor::TagsBetweenIsA | Distractor::ExplicitNotObsolete | Distractor::HpoaFilledColumns | Distractor::HpoaMinimalColumns | Distractor::NoHeaderBlock | Distractor::TagsBeforeName | Distractor::GeneHeaderLong(_) | Distractor::HpoaCommentLong(_)) {
+            if matches!(d, Distractor::GeneHeader(_) | Distractor::GeneTrailingColumns | Distractor::GeneMinimalColumns | Distractor::Typedef(_) | Distractor::ExtraTags | Distractor::TagsBetweenIsA | Distractor::ExplicitNotObsolete | Distractor::HpoaFilledColumns | Distractor::HpoaMinimalColumns | Distractor::NoHeaderBlock | Distractor::TagsBeforeName | Distractor::GeneHeaderLong(_) | Distractor::HpoaCommentLong(_) | Distractor::IsATrailingModifier) {
                 with_opts(ctx, f, &o, true, &format!("distractor {d:?} (transitive loader)"));
             }
         }
@@ -204,7 +214,7 @@ pub fn run(ctx: &mut Ctx) {
     let bases: Vec<&(Facts, String)> = family.iter().filter(|(f, _)| [Kind::Gene, Kind::Omim, Kind::Orpha].iter().all(|k| f.anns.iter().any(|a| a.kind == *k)) && f.terms.len() >= 3).collect();
     let step = (bases.len() / if thorough { 40 } else { 10 }).max(1);
     let bases: Vec<&(Facts, String)> = bases.into_iter().step_by(step).collect();
-    ctx.space("bases/pairs-of-distractors", &format!("{} base fact sets x all 378 unordered pairs of distractors x both loaders", bases.len()));
+    ctx.space("bases/pairs-of-distractors", &format!("{} base fact sets x all 406 unordered pairs of distractors x both loaders", bases.len()));
     for (f, what) in bases {
         let ds = all_distractors(f.terms.len());
         for i in 0..ds.len() {
